@@ -60,8 +60,10 @@ MEMO_NAMES = {
 
 
 def org(root, path=(), cond=frozenset(), shadow=None) -> Org:
-    if len(path) > MAXPATH:
+    if root != FRESH and len(path) > MAXPATH:
         path = tuple(path[:MAXPATH]) + ("...",)
+    if root == FRESH and len(path) > 4:
+        return Org(FRESH, (), frozenset(cond), None)   # too deeply nested local containers: treat as fresh
     # shadows are never nested: the shadow of a shallow copy is a non-fresh origin
     while shadow is not None and shadow.root == FRESH:
         shadow = shadow.shadow
@@ -83,15 +85,42 @@ def is_fresh(o: Org) -> bool:
     return o.root == FRESH and o.shadow is None
 
 
-def extend(o: Org, field: str) -> Org:
+def extend(o: Org, field: str) -> Optional[Org]:
+    """FRESH-rooted origins use their path as a stack of markers: "^" / "^:key" =
+    one local container layer (popped by an element access; a keyed layer only by
+    the same key or by an unknown key), "=" = the element *is* the shadow object.
+    A FRESH origin with a shadow and no markers is a shallow copy of the shadow
+    (top level local, contents alias).  Returns None when a keyed layer is read
+    with a different constant key."""
+    is_elem = field.startswith("[")
     if o.root == FRESH:
+        if o.path and o.path[0].startswith("^"):
+            if is_elem:
+                layer = o.path[0]
+                if layer != "^" and field != "[*]" and layer[2:] != field[1:-1]:
+                    return None
+                rest = o.path[1:]
+                if rest == ("=",):
+                    sh = o.shadow
+                    return org(sh.root, sh.path, sh.cond | o.cond, None) if sh is not None else org(FRESH, (), o.cond)
+                return org(FRESH, rest, o.cond, o.shadow)
+            return o
         if o.shadow is not None:
-            s = o.shadow
-            return org(s.root, s.path + (field,), s.cond | o.cond, s.shadow if s.root == FRESH else None)
+            sh = o.shadow
+            return org(sh.root, sh.path + (field,), sh.cond | o.cond, None)
         return o
     if o.path and o.path[-1] == "...":
         return o
     return org(o.root, o.path + (field,), o.cond, None)
+
+
+def ext(val, field: str):
+    out = set()
+    for o in val:
+        x = extend(o, field)
+        if x is not None:
+            out.add(x)
+    return frozenset(out)
 
 
 def consistent(cond) -> bool:
@@ -158,21 +187,39 @@ class Effects:
     def run(self, max_rounds=12):
         for f in self.funcs:
             self.summaries[f.qual] = Summary()
-        changed = True
-        while changed and self.rounds < max_rounds:
+        dirty = {f.qual for f in self.funcs}
+        self.deps: Dict[str, Set[str]] = {}
+        while dirty and self.rounds < max_rounds:
             self.rounds += 1
-            changed = False
-            nchanged = 0
+            changed_now: Set[str] = set()
+            self._new_callables: Set[str] = set()
+            n = 0
             for f in self.funcs:
+                if f.qual not in dirty:
+                    continue
+                n += 1
                 old = self.summaries[f.qual].key()
-                s = FuncAnalysis(self, f).run()
+                old_env = self._family_env.get(f.qual)
+                fa = FuncAnalysis(self, f)
+                s = fa.run()
                 self.summaries[f.qual] = s
-                if s.key() != old:
-                    changed = True
-                    nchanged += 1
-            self.trace.append((self.rounds, nchanged, sum(len(x.effects) for x in self.summaries.values())))
+                self.deps[f.qual] = fa.used
+                if s.key() != old or self._family_env.get(f.qual) != old_env:
+                    changed_now.add(f.qual)
+            self.trace.append((self.rounds, len(changed_now), sum(len(x.effects) for x in self.summaries.values())))
             if self.verbose:
-                print("round", self.trace[-1], flush=True)
+                print("round", self.trace[-1], "analysed", n, flush=True)
+            trigger = changed_now | self._new_callables
+            dirty = set(self._new_callables)
+            if trigger:
+                for f in self.funcs:
+                    d = self.deps.get(f.qual, ())
+                    if f.qual in dirty:
+                        continue
+                    if any(t in d for t in trigger) or (f.parent is not None and f.parent.qual in changed_now):
+                        dirty.add(f.qual)
+        if dirty:
+            self.trace.append((self.rounds, len(dirty), -1))
         return self
 
     def summary(self, f: FuncInfo) -> Summary:
@@ -203,6 +250,7 @@ class FuncAnalysis:
             g = g.parent
         self.is_init = f.name in INIT_METHODS or _is_setter(f)
         self.finally_depth = 0
+        self.used: Set[str] = set()
         self._tuples = None
         self._pairs = None
         self._expanded = eng._expanded.setdefault(f.qual, {})
@@ -436,13 +484,18 @@ class FuncAnalysis:
                     for k in tgt:
                         infin = self.finally_depth > 0
                         self.restores[k] = self.restores.get(k, False) or infin
-            self.write(base, t.attr, stmt, f"{norm(t)} = {norm(value_node)[:40]}")
+            kind = None
+            if _guarded_by_inequality(stmt, t, value_node):
+                kind = "idempotent"      # `if X.f != v: X.f = v`
+            elif val and all(o.root != FRESH and _memo_path(o) for o in val):
+                kind = "memo"            # value looked up in a write-once registry: re-binding is idempotent
+            self.write(base, t.attr, stmt, f"{norm(t)} = {norm(value_node)[:40]}", kind=kind)
             return
         if isinstance(t, ast.Subscript):
             base = self.ev(t.value, env)
             self.ev(t.slice, env)
             self.write(base, "[*]", stmt, f"{norm(t)[:50]} = {norm(value_node)[:30]}")
-            if isinstance(t.value, ast.Name) and t.value.id in env and any(o.root != FRESH or o.shadow is not None for o in val):
+            if isinstance(t.value, ast.Name) and t.value.id in env and any(o.root != FRESH or o.shadow is not None or o.path for o in val):
                 env[t.value.id] = env[t.value.id] | self.container_of(val)
 
     # -- effects -------------------------------------------------------------
@@ -467,12 +520,17 @@ class FuncAnalysis:
     def site_kind(self, o: Org, path) -> str:
         if self.is_init and o.root in (("P", "self"), ("P", "cls")) :
             return "init"
-        names = set(path) | ({o.root[1].split(".")[-1]} if o.root[0] == "G" else set())
-        if names & set(MEMO_NAMES):
+        # a write *into the memo slot itself* (X.MEMO = v, X.MEMO[k] = v); writes below objects stored in
+        # a memo mutate shared objects and stay ordinary writes
+        full = ((o.root[1].split(".")[-1],) if o.root[0] == "G" else ()) + tuple(path)
+        tail = list(full)
+        while tail and tail[-1] == "[*]":
+            tail.pop()
+        if tail and tail[-1] in MEMO_NAMES and len(full) - len(tail) <= 1:
             return "memo"
         return "write"
 
-    def write(self, base_val, field, node, text, aug_name=False):
+    def write(self, base_val, field, node, text, aug_name=False, kind=None):
         if not base_val:
             return
         pc = frozenset(self.pc.items())
@@ -480,7 +538,8 @@ class FuncAnalysis:
             if o.root == FRESH:
                 continue  # a fresh object (or the top level of a shallow copy) is local
             path = o.path + ((field,) if field is not None else ())
-            self.record(o.root, path, o.cond | pc, self.site_kind(o, path), node, text)
+            k0 = self.site_kind(o, path)
+            self.record(o.root, path, o.cond | pc, kind if (kind and k0 == "write") else k0, node, text)
 
     # -- expressions -----------------------------------------------------------
     def lookup(self, name, env):
@@ -496,7 +555,7 @@ class FuncAnalysis:
         return frozenset()
 
     def elements(self, val):
-        return frozenset(extend(o, "[*]") for o in val)
+        return ext(val, "[*]")
 
     def ev(self, e, env) -> FrozenSet[Org]:
         if e is None:
@@ -516,10 +575,12 @@ class FuncAnalysis:
                     c, n = r[1]
                     return frozenset([org(("G", f"{c.module.name}.{c.name}.{n}"))])
                 return frozenset()
-            return frozenset(extend(o, e.attr) for o in base)
+            return ext(base, e.attr)
         if isinstance(e, ast.Subscript):
             base = self.ev(e.value, env)
             self.ev(e.slice, env)
+            if isinstance(e.slice, ast.Constant) and isinstance(e.slice.value, str):
+                return ext(base, f"[{e.slice.value}]")
             return self.elements(base)
         if isinstance(e, ast.Call):
             return self.call(e, env)
@@ -555,13 +616,19 @@ class FuncAnalysis:
                 shadow |= v
             return self.container_of(shadow)
         if isinstance(e, ast.Dict):
-            shadow = frozenset()
+            out = frozenset()
             for k, v in zip(e.keys, e.values):
-                if k is not None:
-                    self.ev(k, env)
                 vv = self.ev(v, env)
-                shadow |= vv if k is not None else self.elements(vv)
-            return self.container_of(shadow)
+                if k is None:
+                    # {**d}: a shallow copy of d
+                    out |= frozenset(org(FRESH, o.path if o.root == FRESH else (), o.cond, o if o.root != FRESH else o.shadow) for o in vv)
+                    continue
+                self.ev(k, env)
+                key = k.value if isinstance(k, ast.Constant) and isinstance(k.value, str) else None
+                c = self.container_of(vv, key)
+                if c != fresh():
+                    out |= c
+            return out if out else fresh()
         if isinstance(e, (ast.ListComp, ast.SetComp, ast.GeneratorExp, ast.DictComp)):
             env2 = dict(env)
             for g in e.generators:
@@ -598,16 +665,18 @@ class FuncAnalysis:
             return frozenset()
         return frozenset()
 
-    def container_of(self, contents):
-        """A fresh container whose elements alias `contents`."""
+    def container_of(self, contents, key=None):
+        """A fresh local container whose elements (under `key`, if given) are exactly `contents`."""
         out = set()
-        nonfresh = [o for o in contents if o.root != FRESH or o.shadow is not None]
-        if not nonfresh:
-            return fresh()
-        for o in nonfresh:
-            # shadow such that container[*] == o
-            out.add(org(FRESH, (), o.cond, _unelement(o)))
-        return frozenset(out)
+        layer = "^" if key is None else f"^:{key}"
+        for o in contents:
+            if o.root == FRESH:
+                if o.shadow is None and not o.path:
+                    continue
+                out.add(org(FRESH, (layer,) + o.path, o.cond, o.shadow))
+            else:
+                out.add(org(FRESH, (layer, "="), o.cond, o))
+        return frozenset(out) if out else fresh()
 
     # -- calls -------------------------------------------------------------------
     def _tuple_literals(self):
@@ -724,7 +793,7 @@ class FuncAnalysis:
                 added |= self.elements(v) if last in ("extend", "update") else v
             for v in kwvals.values():
                 added |= v
-            if any(o.root != FRESH or o.shadow is not None for o in added):
+            if any(o.root != FRESH or o.shadow is not None or o.path for o in added):
                 env[fn.value.id] = env[fn.value.id] | self.container_of(added)
         ip = next((k.value for k in e.keywords if k.arg == "inplace"), None)
         if ip is not None and isinstance(ip, ast.Constant) and ip.value is True and recv_val is not None:
@@ -740,7 +809,8 @@ class FuncAnalysis:
         if last in ("deepcopy",) or d in ("copy.deepcopy",):
             return fresh()
         if (d in ("copy.copy",) or (isinstance(fn, ast.Name) and fn.id == "copy")) and argvals:
-            return frozenset(org(FRESH, (), o.cond, o if o.root != FRESH else o.shadow) for o in argvals[0]) or fresh()
+            return frozenset(org(FRESH, o.path if o.root == FRESH else (), o.cond, o if o.root != FRESH else o.shadow)
+                             for o in argvals[0]) or fresh()
         if isinstance(fn, ast.Name) and fn.id in ("list", "dict", "tuple", "set", "frozenset", "sorted", "reversed") and argvals:
             return self.container_of(self.elements(argvals[0]))
         if isinstance(fn, ast.Name) and fn.id in ("iter", "enumerate", "zip", "filter", "map", "next", "cast", "getattr", "vars"):
@@ -749,7 +819,7 @@ class FuncAnalysis:
                 return argvals[1]
             if fn.id == "getattr" and argvals:
                 fld = e.args[1].value if len(e.args) > 1 and isinstance(e.args[1], ast.Constant) else "*"
-                return frozenset(extend(o, str(fld)) for o in argvals[0])
+                return ext(argvals[0], str(fld))
             if fn.id == "next" and argvals:
                 return self.elements(argvals[0])
             for v in argvals:
@@ -760,7 +830,12 @@ class FuncAnalysis:
             if not callees:
                 if last in ("items", "values", "keys"):
                     return recv_val
+                if e.args and isinstance(e.args[0], ast.Constant) and isinstance(e.args[0].value, str):
+                    return ext(recv_val, f"[{e.args[0].value}]")
                 return self.elements(recv_val)
+        if last == "getmro" and argvals:
+            # the class and its bases: shared class-level objects of the same family
+            return self.container_of(argvals[0])
         # --- resolved callees -------------------------------------------------------
         callees, kind = self.eng.resolve(self.f, e)
         if not callees and isinstance(fn, ast.Name):
@@ -805,7 +880,9 @@ class FuncAnalysis:
             if target:
                 s = self.eng.param_callables.setdefault((g.qual, p), set())
                 for t in target:
-                    s.add(t.qual)
+                    if t.qual not in s:
+                        s.add(t.qual)
+                        getattr(self.eng, "_new_callables", set()).add(g.qual)
 
     def bind(self, g: FuncInfo, e: ast.Call, argvals, kwvals, recv_val, kind):
         """parameter name -> (abstract value, argument expression or None)"""
@@ -896,6 +973,7 @@ class FuncAnalysis:
 
     def apply_summary(self, g: FuncInfo, e: ast.Call, env, argvals, kwvals, recv_val, kind):
         s = self.eng.summary(g)
+        self.used.add(g.qual)
         binding = self.bind(g, e, argvals, kwvals, recv_val, kind)
         self.note_callable_args(g, {p: ex for p, (v, ex) in binding.items() if ex is not None})
         pc = frozenset(self.pc.items())
@@ -919,20 +997,17 @@ class FuncAnalysis:
                 continue
             for o in vals:
                 oo = o
-                path = ef.path
-                if oo.root == FRESH:
-                    if oo.shadow is None or not path:
-                        continue
-                    # writing below the top level of a shallow copy reaches the original
-                    sh = oo.shadow
-                    oo = org(sh.root, sh.path, sh.cond | oo.cond, None)
-                    if oo.root == FRESH:
-                        continue
+                for fld in ef.path[:-1]:
+                    oo = extend(oo, fld)
+                    if oo is None:
+                        break
+                if oo is None or oo.root == FRESH:
+                    continue    # the written object is local to the caller (fresh, or top level of a copy)
                 cond = oo.cond | c2 | pc
                 if not consistent(cond):
                     continue
                 kind2 = ef.kind
-                full = oo.path + path
+                full = oo.path + tuple(ef.path[-1:])
                 if kind2 == "init":
                     kind2 = "init" if (self.is_init and oo.root in (("P", "self"), ("P", "cls"))) else "write"
                 if kind2 == "write":
@@ -950,11 +1025,6 @@ class FuncAnalysis:
                 out.add(org(FRESH, (), c2))
                 continue
             base = o if o.root != FRESH else o.shadow
-            while base is not None and base.root == FRESH:
-                base = base.shadow
-            if base is None:
-                out.add(org(FRESH, (), c2))
-                continue
             if base.root[0] == "G":
                 out.add(org(base.root, base.path, c2, None))
                 continue
@@ -969,20 +1039,33 @@ class FuncAnalysis:
                 x = v
                 for fld in base.path:
                     x = extend(x, fld)
+                    if x is None:
+                        break
+                if x is None:
+                    continue
                 x = org(x.root, x.path, x.cond | c2, x.shadow)
-                if o.root == FRESH:   # shallow copy of a parameter
-                    x = org(FRESH, (), x.cond, x if x.root != FRESH else x.shadow)
+                if o.root == FRESH:   # shallow copy / local container built from a parameter
+                    if x.root == FRESH:
+                        x = org(FRESH, o.path + x.path, x.cond, x.shadow)
+                    else:
+                        x = org(FRESH, o.path, x.cond, x)
                 if consistent(x.cond):
                     out.add(x)
         return frozenset(out)
 
 
-def _unelement(o: Org) -> Org:
-    """An origin X such that X[*] == o (used as shadow of fresh containers)."""
-    if o.path and o.path[-1] == "[*]":
-        return org(o.root, o.path[:-1], o.cond, o.shadow)
-    # no exact pre-image: keep the element itself (over-approximation on reads, exact enough for writes)
-    return org(o.root, o.path, o.cond, o.shadow)
+def _memo_path(o: Org) -> bool:
+    names = set(o.path) | ({o.root[1].split(".")[-1]} if o.root[0] == "G" else set())
+    return bool(names & set(MEMO_NAMES))
+
+
+def _guarded_by_inequality(stmt, target, value_node) -> bool:
+    p = parent(stmt)
+    if isinstance(p, ast.If) and stmt in p.body and isinstance(p.test, ast.Compare) and len(p.test.ops) == 1 \
+            and isinstance(p.test.ops[0], (ast.NotEq, ast.IsNot)):
+        a, b = norm(p.test.left), norm(p.test.comparators[0])
+        return {a, b} == {norm(target), norm(value_node)}
+    return False
 
 
 def _terminates(stmts) -> bool:
@@ -998,7 +1081,7 @@ def _terminates(stmts) -> bool:
 
 def show_effect(e: Effect) -> str:
     root = e.root[1] if e.root[0] in ("P", "G") else "?"
-    path = "".join(f".{p}" if p != "[*]" else "[*]" for p in e.path)
+    path = "".join(f".{p}" if not p.startswith("[") else p for p in e.path)
     cond = " when " + " and ".join(f"{k}={v}" for k, v in sorted(e.cond)) if e.cond else ""
     via = " via " + " <- ".join(f"{v[0].split('::')[1]}:{v[1]}" for v in e.via[:4]) if e.via else ""
     return f"{root}{path} [{e.kind}]{cond} written at {e.site[0].split('::')[0]}:{e.site[1]} `{e.site[2]}`{via}"
